@@ -29,13 +29,31 @@
 (* wire = request frames written by RequestSender and not yet read by the  *)
 (* remote (a flush completes iff Len(wire) <= SockCap, see the harness).   *)
 (*                                                                         *)
+(* Scheduling.  run() is ONE future: join(att, select(read, write)).  A    *)
+(* poll of it polls attach_task, read_task, write_task in that order, each *)
+(* until it blocks, so a task's actions are enabled only when the tasks    *)
+(* polled before it have nothing to do (AttEnabled / ReadEnabled), and     *)
+(* the environment (harness driver, remote, consumers) runs only BETWEEN   *)
+(* polls: when everything is idle (Quiescent), or - unless Settled - in a  *)
+(* burst of several environment actions before the next poll (burst).      *)
+(* Nondeterminism left inside a poll is the code's own: tokio::select!     *)
+(* between a new consumer and a message (R_NewConsumer vs R_Linked ..),   *)
+(* SelectAll                                                               *)
+(* over the consumers command streams (W_Idle_Rec(c), W_Wr_Rec(c)).        *)
+(*                                                                         *)
+(* Every environment action appends a record to hist: its inputs and the   *)
+(* outputs M expects until the next environment action (deliveries to      *)
+(* consumers, frame read, notifications sent).  A finished hist is a       *)
+(* script for the harness (MC_DownlinkRuntime!DumpOnFinish).               *)
+(*                                                                         *)
 (* Abstractions (named): consumer channels never fill (the read task never *)
 (* blocks in a send); a dropped consumer disappears from the read task's   *)
 (* lists at once (the code notices at its next send; unobservable); the    *)
 (* read side's feed-then-flush is one step; timeouts never fire.           *)
 (* Deliberate deviations of the CODE are modelled as the code has them     *)
 (* unless listed in Fixed: F10a (empty command body = "no data"), F10b     *)
-(* (late consumer without SYNC parked in awaiting_synced).                 *)
+(* (late consumer without SYNC parked in awaiting_synced); F10c (one       *)
+(* awaiting_synced list for all outstanding syncs) is always modelled.     *)
 (***************************************************************************)
 EXTENDS Naturals, Sequences, FiniteSets, TLC, DownlinkSession
 
